@@ -191,6 +191,10 @@ type Instance struct {
 	// post-processor contributes its definition (DefinitionRegistry.RegisterMeta) during the
 	// scanning phase. Only for types without points / configuration fields.
 	Contributed bool `json:"contributed,omitempty"`
+	// Tolerant: the instance's initialization callback copes with a failing lookup (the error
+	// of an InitLookups entry is ignored): a creation that failed inside such a lookup may be
+	// attempted again later in the same start.
+	Tolerant bool `json:"tolerant,omitempty"`
 	// Preset: before Run the application itself has put an object of its own (not a registered
 	// component) into every optional single-valued point of the instance that cannot be
 	// satisfied; the container must leave such a field untouched.
